@@ -295,3 +295,35 @@ func VH_C16_late_report_after_removal() {
 	verifAssert("C16.late-report.payload-bytes", verifCounterValue(pk, "int", "p>t", "key-A") == 47 && verifCounterValue(pk, "int", "p>t", "key-B") == 11)
 	verifReach("C16.late-report.done", true)
 }
+
+// every client address maps to exactly one location label: the label used for a connection's
+// own series and the one used for its tunnel time are the same, whatever the form of the address
+// (4-byte, IPv4-mapped, IPv6, zoned link-local)
+func VH_C20_one_label_per_client() {
+	verifInstallClock(1 << 41)
+	db := &verifInfoDB{info: ipinfo.IPInfo{CountryCode: "AA", ASN: ipinfo.ASN{Number: 64500, Organization: "Example Org"}}, fail: verifFlag("dbfail")}
+	m, _ := NewServiceMetrics(db)
+	var addr *net.TCPAddr
+	switch verifChoice("form", 4) {
+	case 0:
+		addr = &net.TCPAddr{IP: net.IP{203, 0, 113, 5}, Port: 50000}
+	case 1:
+		addr = &net.TCPAddr{IP: net.IP{203, 0, 113, 5}.To16(), Port: 50000}
+	case 2:
+		addr = &net.TCPAddr{IP: net.ParseIP("2001:db8::5"), Port: 50000}
+	case 3:
+		addr = &net.TCPAddr{IP: net.ParseIP("fe80::1"), Port: 50000, Zone: "eth0"} // a client on the local link
+	}
+	connLabel := m.getIPInfoFromAddr(addr).CountryCode
+	t := m.AddOpenTCPConnection(&verifConn{remote: addr, local: &net.TCPAddr{IP: net.IPv4(192, 0, 2, 1), Port: 443}})
+	t.AddAuthenticated("k1")
+	verifAssert("C20.one-label.tunnel-tracked", len(m.tunnelTimeMetrics.activeClients) == 1)
+	for _, c := range m.tunnelTimeMetrics.activeClients {
+		verifAssert("C20.one-label.same-label-for-connection-and-tunnel-time", c.info.CountryCode == connLabel)
+	}
+	if addr.Zone != "" {
+		verifAssert("C20.one-label.local-link-client-is-XL", connLabel == "XL")
+	}
+	t.AddClosed("OK", metrics.ProxyMetrics{}, time.Second)
+	verifReach("C20.one-label.done", true)
+}
